@@ -101,7 +101,8 @@ inductive Target
   | named (n : Str)       -- found, non-empty `name`
   | unnamed               -- found, no (or empty) `name`
   | missing               -- KeyError: no such element, or ambiguous
-  | malformed             -- `follow_link` raises ValueError ("Malformed link") / TypeError (xtype mismatch)
+  | malformed             -- `follow_link` raises ValueError ("Malformed link") / TypeError (xtype
+                          -- mismatch); since the repair treated like `missing`
 deriving DecidableEq, Repr
 
 def sBroken : Str := "&lt;broken link&gt;".toList
@@ -110,8 +111,9 @@ def sUnnamedL : Str := "&lt;unnamed element ".toList
 def sEntGt : Str := sGt
 
 mutual
-/-- `flatten_element` of `unescape_linked_text` for an element. `malformed` is what the code did before the
-repair (the ValueError of `follow_link` escaped); see `brokenAsDeleted`. -/
+/-- `flatten_element` of `unescape_linked_text` for an element (`except (KeyError, ValueError, TypeError)`:
+a link id that `follow_link` rejects is a deleted element; before the repair its ValueError escaped, see
+`unescLinkOld`). -/
 def unescNode (look : Str → Target) : Node → Except Err Str
   | .mk tag href text kids tail =>
     if tag = tagA then
@@ -120,7 +122,7 @@ def unescNode (look : Str → Target) : Node → Except Err Str
       | some h =>
         let eh := htmlEscape h
         match look h with
-        | .malformed => .error .valueError
+        | .malformed => .ok (sDeletedL ++ eh ++ sEntGt ++ htmlEscape tail)
         | .missing => .ok (sDeletedL ++ eh ++ sEntGt ++ htmlEscape tail)
         | .unnamed =>
           .ok (aOpenHlink ++ eh ++ aMid ++ (sUnnamedL ++ eh ++ sEntGt) ++ aClose ++ htmlEscape tail)
@@ -138,6 +140,16 @@ def unescNodes (look : Str → Target) : List Node → Except Err Str
       | .error e => .error e
       | .ok b => .ok (a ++ b)
 end
+
+/-- the `a` branch as it was before the repair (`except KeyError` only): kept so that a reverted repair is
+recognisable by name (`Props.C07.malformed_link_unreadable_before_fix`) -/
+def unescLinkOld (look : Str → Target) (h tail : Str) : Except Err Str :=
+  match look h with
+  | .malformed => .error .valueError
+  | .missing => .ok (sDeletedL ++ htmlEscape h ++ sEntGt ++ htmlEscape tail)
+  | .unnamed =>
+    .ok (aOpenHlink ++ htmlEscape h ++ aMid ++ (sUnnamedL ++ htmlEscape h ++ sEntGt) ++ aClose ++ htmlEscape tail)
+  | .named n => .ok (aOpenHlink ++ htmlEscape h ++ aMid ++ htmlEscape n ++ aClose ++ htmlEscape tail)
 
 def unescapeFrags (look : Str → Target) (f : Frags) : Except Err Str :=
   match unescNodes look f.nodes with
@@ -303,5 +315,19 @@ def allLive (look : Str → Target) (v : LT) : Bool :=
 /-- no link id is one `follow_link` chokes on -/
 def noMalformed (look : Str → Target) (v : LT) : Bool :=
   v.links.all (fun l => look l.id != .malformed)
+
+/-- `spec["LinkedText"] = s` followed by `spec["LinkedText"]`, on the sub-language: escape, store, unescape
+(`none` = foreign) -/
+def readBack (look : Str → Target) (s : Str) : Option (Except Err Str) :=
+  match escapeLinked s with
+  | some (.ok raw) => unescapeLinked look raw
+  | some (.error e) => some (.error e)
+  | none => none
+
+/-- a value without the display names of its links (which `escape` does not store) -/
+def LT.skeleton (v : LT) : Str × List (Str × Str) := (v.lead, v.links.map (fun l => (l.id, l.tail)))
+
+/-- the leading text is empty or survives `str.strip()` -/
+def LT.leadKept (v : LT) : Bool := v.lead.isEmpty || !v.lead.all isPySpace
 
 end Capella.Pods
